@@ -143,6 +143,20 @@ def oracle(case):
 			return False
 	malformed = [t for t in qs if t and not isnum(t)]
 	odd = [t for t in qs if not t or (isnum(t) and (float(t) != float(t) or not (0 <= float(t) <= 1) or b'e' in t.lower() or b'_' in t))]
+	# asking for one element by its value looks at the whole field as well: a malformed weight anywhere makes it fail
+	if malformed:
+		from httoop import Headers
+		try:
+			first = value.split(b',')[0].split(b';')[0].strip().decode('latin-1')
+			h0 = Headers()
+			h0[name] = value
+			if first and b'"' not in value:
+				r = h0.get_element(name, first)
+				return {'what': 'get_element(%r, %r) returned %r although the field has the malformed quality value %r' % (name, first, bytes(r) if r is not None else None, malformed[0]), 'name': name, 'value': value.decode('latin-1'), 'finding': None}
+		except InvalidHeader:
+			pass
+		except Exception:
+			pass
 	try:
 		els = impl_elements(name, value)
 	except InvalidHeader:
@@ -167,8 +181,17 @@ def oracle(case):
 	got = sorted(canon(e) for e in els)
 	if singles != got:
 		return {'what': 'returned elements are not exactly the listed elements (each once, with parameters)', 'name': name, 'value': value.decode('latin-1'), 'finding': None}
-	# independence of the order sent: reverse and rotate
+	# the same elements sent as several field lines, the name spelled differently each time
 	parts = Element.split(value)
+	if len(parts) >= 2:
+		from httoop import Headers
+		h2 = Headers()
+		spell = [name, name.lower(), name.upper(), name.title()]
+		h2.parse(b'\r\n'.join(spell[i % 4].encode() + b': ' + p.strip() for i, p in enumerate(parts)))
+		els3 = h2.elements(name)
+		if sorted(canon(e) for e in els3) != got or [e.quality for e in els3] != quals:
+			return {'what': 'the elements sent as %d field lines (names in different letter case) come back as %r' % (len(parts), [bytes(e) for e in els3]), 'name': name, 'value': value.decode('latin-1'), 'finding': None}
+	# independence of the order sent: reverse and rotate
 	for alt in (parts[::-1], parts[1:] + parts[:1]):
 		els2 = impl_elements(name, b', '.join(alt))
 		if [e.quality for e in els2] != quals or sorted(bytes(e) for e in els2) != sorted(bytes(e) for e in els):
